@@ -569,11 +569,16 @@ class LabelMapper:
                     if isinstance(label_pos, int):
                         label_pos = [label_pos]
 
-                    suffix = "__" + "".join(
+                    suffix = "".join(
                         "1" if idx in label_pos else "0"
                         for idx in range(self.label_variables[k])
                     )
-                    variables[f"{k}{suffix}"] = v
+                    # a compound without label positions keeps its own name
+                    variables[
+                        _assign_compound_labels(
+                            base_compounds=[k], label_suffixes=[suffix]
+                        )[0]
+                    ] = v
 
         m.add_variables(variables)
 
